@@ -11,7 +11,7 @@ Definition std_widthb (w : N) : bool :=
 Definition goodb (x : bvx) : bool := canonb x && std_widthb (xw x).
 
 Definition kind_okb (k : kind) : bool :=
-  match k with KF w n => std_widthb w && (0 <? n) | _ => true end.
+  match k with KF w n => std_widthb w && (0 <=? n) | _ => true end.
 
 Definition A1 : N := pow2 62.          (* every length is below 2^62 *)
 
